@@ -70,8 +70,9 @@ def classify(spec, out, uninit=False):
             return 'cwatershed:uninit-output'
         if short in ('locmax', 'locmin', 'regmax', 'regmin') and lay in NONC:
             return 'locminmax:layout'
-        if short in ('median_filter', 'rank_filter') and _elem_empty(spec):
-            return f'{short}:empty-footprint:uninit-output'
+        if _elem_empty(spec):
+            # kernels that return early on an empty neighbourhood without writing their output (rank_filter, dilate)
+            return 'empty-footprint:uninit-output'
         return f'{short}:uninit-result'
     if out['st'] == 'asan':
         frames = out.get('frames') or ['?']
@@ -203,13 +204,14 @@ def _model_cases(rng, n):
     out = []
     R = rng.randint
     for _ in range(n):
-        k = rng.choice(['fastbin', 'conv1d', 'find2d', 'majority', 'hitmiss', 'dt', 'bbox'])
+        k = rng.choice(['fastbin', 'conv1d', 'find2d', 'majority', 'hitmiss', 'dt', 'bbox', 'foldl', 'com', 'cooc'])
+        expect = 1
         if k == 'fastbin':
             line = f'c10 kind=fastbin ny={R(1, 9)} nx={R(1, 9)} dy={R(-12, 12)} dx={R(-12, 12)} erosion={R(0, 1)}'
         elif k == 'conv1d':
-            n1 = R(1, 12)
-            nf = R(1, max(1, n1))             # the Python wrapper sends longer kernels to the generic path
-            line = f'c10 kind=conv1d n0={R(1, 4)} n1={n1} nf={nf} mode={R(0, 5)}'
+            n1 = R(2, 12)
+            nf = R(1, n1 - 1)                 # the Python wrapper's guard: len(weights) < f.shape[axis]
+            line = f'c10 kind=conv1d n1={n1} nf={nf} mode={R(0, 5)}'
         elif k == 'find2d':
             n0, n1 = R(1, 8), R(1, 8)
             line = f'c10 kind=find2d n0={n0} n1={n1} t0={R(1, n0)} t1={R(1, n1)}'
@@ -219,19 +221,39 @@ def _model_cases(rng, n):
             nd = R(1, 3)
             line = f"c10 kind=hitmiss shape={','.join(str(R(1, 6)) for _ in range(nd))} bshape={','.join(str(R(1, 5)) for _ in range(nd))}"
         elif k == 'dt':
-            line = f'c10 kind=dt n={R(1, 12)} seed={R(0, 10 ** 6)}'
-        else:
+            nn = R(1, 12)
+            pop = ','.join(str(R(0, 1)) for _ in range(R(0, 2 * nn)))
+            adv = ','.join(str(R(0, 1)) for _ in range(R(0, 2 * nn)))
+            line = f'c10 kind=dt n={nn} pop={pop or "-"} adv={adv or "-"}'
+        elif k == 'bbox':
             mx = R(0, 6)
-            line = f'c10 kind=bbox ndim={R(1, 4)} maxlabel={mx} label={R(0, mx)}'
-        out.append(dict(kind='model', line=line, expect=1))
+            if rng.random() < 0.25:           # outside the domain: negative label / label above the maximum must be flagged
+                line = f'c10 kind=bbox ndim={R(1, 4)} maxlabel={mx} label={rng.choice([-1, -3, mx + 1])}'
+                expect = 0
+            else:
+                line = f'c10 kind=bbox ndim={R(1, 4)} maxlabel={mx} label={R(0, mx)}'
+        elif k == 'foldl':
+            line = f'c10 kind=foldl maxi={R(1, 9)} label={R(-5, 15)}'
+        elif k == 'com':
+            mx, size = R(0, 5), R(1, 30)
+            if rng.random() < 0.25:           # labels smaller than the image: the defect repaired by the shape guard
+                line = f'c10 kind=com ndim={R(1, 3)} maxlabel={mx} label={R(0, mx)} size={size + R(1, 5)} lsize={size}'
+                expect = 0
+            else:
+                line = f'c10 kind=com ndim={R(1, 3)} maxlabel={mx} label={R(0, mx)} size={size} lsize={size}'
+        else:
+            m = R(1, 8)
+            v, v2 = R(0, m - 1), R(0, m - 1)
+            line = f'c10 kind=cooc m0={m} m1={m} v={v} v2={v2}'
+        out.append(dict(kind='model', line=line, expect=expect))
     return out
 
 
 def cases(rng, tier):
     out = list(_corpus()) if tier != 'search' else []
-    nsweep = dict(quick=2200, thorough=60000, search=8000)[tier]
+    nsweep = dict(quick=5000, thorough=60000, search=8000)[tier]
     nfilter = dict(quick=250, thorough=4000, search=600)[tier]
-    nmodel = dict(quick=200, thorough=3000, search=0)[tier]
+    nmodel = dict(quick=400, thorough=4000, search=0)[tier]
     out += _filter_cases(rng, nfilter)
     if MODEL_KINDS_READY:
         out += _model_cases(rng, nmodel)
@@ -242,7 +264,7 @@ def cases(rng, tier):
     return out
 
 
-MODEL_KINDS_READY = False
+MODEL_KINDS_READY = True
 
 
 def shrink(case):
